@@ -1018,7 +1018,7 @@ class Collection(object):
             def _raise_incompatible(subkey):
                 raise WriteError(
                     "cannot infer query fields to set, both paths '%s' and '%s' are matched"
-                    % (k, paths[subkey]))
+                    % (k, paths.get(subkey, subkey)))
 
             if k in paths:
                 _raise_incompatible(k)
